@@ -316,4 +316,29 @@ theorem gen_no_recursion_error (fuel : Nat) (self o n : Option PVal) (path : Opt
   rw [hx] at this
   simp [PyErr.toErr] at this
 
+/-! ## the generated text computes (non-vacuity of the statements above) -/
+
+/-- a provided `0` survives the merge with an absent value (F5) -/
+example : Gen.PartialMerge._update_field 1 none none (some (.atom (.int 0))) none false
+    = .ok (some (.atom (.int 0))) := by rfl
+
+/-- a conflict without overwrite permission is a `ValueError`, with it the later value wins -/
+example : Gen.PartialMerge._update_field 1 none (some (.atom (.int 0))) (some (.atom (.int 1))) none false
+    = .error .valueError := by rfl
+example : Gen.PartialMerge._update_field 1 none (some (.atom (.int 0))) (some (.atom (.int 1))) none true
+    = .ok (some (.atom (.int 1))) := by rfl
+
+/-- child instance on the left, parent instance on the right: recursive merge, result of the left class,
+lists concatenated; needs three frames -/
+example : Gen.PartialMerge._update_field 3 none
+    (some (.obj ["Par", "Chi"] [("xs", .list [.atom (.int 1)])]))
+    (some (.obj ["Par"] [("x", .atom (.int 0)), ("xs", .list [.atom (.int 2)])])) none false
+    = .ok (some (.obj ["Par", "Chi"] [("x", .atom (.int 0)), ("xs", .list [.atom (.int 1), .atom (.int 2)])])) := by
+  rfl
+example : Gen.PartialMerge._update_field 2 none
+    (some (.obj ["Par", "Chi"] [("xs", .list [.atom (.int 1)])]))
+    (some (.obj ["Par"] [("xs", .list [.atom (.int 2)])])) none false
+    = .error .recursionError := by
+  rfl
+
 end MetadorModel.Bridge.PartialMerge
